@@ -185,7 +185,7 @@ class Interp(CallMixin):
                 return bool(v.value)
             return True
         if isinstance(v, StrT):
-            if v.literal_text():
+            if v.literal_text() or any(isinstance(p_, Opaque) and p_.truthy for p_ in v.parts):
                 return True
             return self.fork(("truth", repr(v)), f"truth({v!r})")
         if isinstance(v, Opaque):
@@ -237,6 +237,14 @@ class Interp(CallMixin):
             if isinstance(other, int) and not isinstance(other, bool) and self.is_subclass(e.cls, "builtins.int"):
                 return e.value == other
             return False
+        if isinstance(a, Obj) and a.cls in self.model.classes:
+            m = self.model.find_method(self.model.classes[a.cls], "__eq__")
+            if m is not None:
+                return self.truth(self.call(FuncVal(fn=m, self_obj=a, module=m.module), [b], {}, None, None))
+        if isinstance(b, Obj) and b.cls in self.model.classes and not isinstance(a, Obj):
+            m = self.model.find_method(self.model.classes[b.cls], "__eq__")
+            if m is not None:
+                return self.truth(self.call(FuncVal(fn=m, self_obj=b, module=m.module), [a], {}, None, None))
         if isinstance(a, Obj) and isinstance(b, Obj):
             if a is b:
                 return True
@@ -784,8 +792,17 @@ class Interp(CallMixin):
                 m = self.model.find_method(cls, "__add__") if cls is not None else None
                 if m is not None:
                     return self.call(FuncVal(fn=m, self_obj=a, module=m.module), [b], {}, node, frame)
+            if isinstance(b, Obj) and not isinstance(a, Obj):
+                cls = self.model.classes.get(b.cls)
+                m = self.model.find_method(cls, "__radd__") or (self.model.find_method(cls, "__add__") if cls is not None else None) if cls is not None else None
+                if m is not None:
+                    return self.call(FuncVal(fn=m, self_obj=b, module=m.module), [a], {}, node, frame)
             if isinstance(a, (str, StrT)) and isinstance(b, Opaque) or isinstance(b, (str, StrT)) and isinstance(a, Opaque):
                 return strt_concat(a if not isinstance(a, Opaque) else StrT((a,)), b if not isinstance(b, Opaque) else StrT((b,)))
+        if isinstance(op, ast.Sub) and isinstance(a, Obj) and a.cls in self.model.classes:
+            m = self.model.find_method(self.model.classes[a.cls], "__sub__")
+            if m is not None:
+                return self.call(FuncVal(fn=m, self_obj=a, module=m.module), [b], {}, node, frame)
         if isinstance(op, (ast.Sub, ast.Mult, ast.FloorDiv, ast.Mod)) and isinstance(a, int) and isinstance(b, int):
             return {ast.Sub: a - b, ast.Mult: a * b, ast.FloorDiv: a // b if b else 0, ast.Mod: a % b if b else 0}[type(op)]
         if isinstance(op, ast.Mod) and isinstance(a, str):
